@@ -110,7 +110,7 @@ fn triple(a: i64, b: i64, c: i64) -> Result<(), Fail> {
 
 fn results_case<R>(name: &str, a: &[i64], b: &[i64], ga: u32, gb: u32, mk: impl Fn(i64) -> R, expect: impl Fn(i128, i128) -> Ordering) -> Result<(), Fail>
 where
-    R: Ord + Copy + std::fmt::Debug + From<i64> + for<'x> std::iter::Sum<&'x R> + 'static,
+    R: Ord + Copy + std::fmt::Debug + From<i64> + for<'x> std::iter::Sum<&'x R> + std::iter::Sum<R> + 'static,
 {
     let (sa, sb): (i128, i128) = (a.iter().map(|v| i128::from(*v)).sum(), b.iter().map(|v| i128::from(*v)).sum());
     let ta: TestResults<R> = a.iter().copied().collect();
@@ -129,6 +129,16 @@ where
             t.total_result
         );
         ensure!(t.len() == v.len() && t.is_empty() == v.is_empty(), format!("{name}/len"), "len()/is_empty() of {v:?}");
+    }
+    // every way of summing per-case results gives the same total (Sum<T>, Sum<Self>, Sum<&Self>)
+    {
+        let by_value: R = a.iter().map(|v| mk(*v)).sum();
+        let by_ref: R = ta.results.iter().sum();
+        ensure!(
+            by_value == mk(sa as i64) && by_ref == mk(sa as i64),
+            format!("{name}/sum-flavours-disagree"),
+            "summing {a:?}: by value {by_value:?}, by reference {by_ref:?}, expected {sa}"
+        );
     }
     let want = expect(sa, sb);
     ensure!(ta.cmp(&tb) == want, format!("{name}/cmp-not-by-total"), "{a:?} (total {sa}) vs {b:?} (total {sb}): cmp = {:?}, expected {want:?}", ta.cmp(&tb));
